@@ -157,7 +157,8 @@ def run(ctx):
     for st in ("SUBCKT", "RESISTOR", "CAPACITOR", "INDUCTOR", "MOS", "DIODE", "BIPOLAR", "VSOURCE", "ISOURCE", "VCVS", "VCCS", "CCCS", "CCVS", "TLINE"):
         for dirs in (("none", "none"), ("in", "out", "inout"), ("out", "none", "in", "inout")):
             for pstyle in ("none", "ints", "mixed", "wholefloats"):
-                for lits in ((), ("lit one", "lit two"), ("  an indented line", "trailing blanks   ", "+ continuation \\\n", "\tboth\t\n")):
+                for lits in ((), ("lit one", "lit two"), ("  an indented line", "trailing blanks   ", "+ continuation \\\n", "\tboth\t\n"),
+                             (".control", "alter r1 = 2k", "run", "alter r1 = 2k", "run", ".endc")):  # repeated lines
                     eitems.append((st, dirs, pstyle, lits))
     for it in eitems:
         status, r = _ext_one(it)
